@@ -229,6 +229,9 @@ def dict_ops(kind):
             ops.append(["update", shape, it, {}])
             if shape in ("dict", "pairs", "proxy-same", "proxy-otherfield", "proxy-othercfg"):
                 ops.append(["ior", shape, it])
+        for shape in ("proxy-same", "proxy-otherfield", "proxy-othercfg"):
+            ops.append(["update", shape + "+kw", {"$": "ref", "proxy": shape[6:], "items": D(*c)}, {"a": vals[1], "b": vals[0]}])
+        ops.append(["update", "pairs+kw", [list(p) for p in c], {"b": vals[1]}])
         ops.append(["update", "dict+kw", D(*c), {"a": vals[1]}])
         ops.append(["update", "dict+kw", D(*c), {"b": vals[0], "a": vals[0]}])
     ops.append(["update", "none", None, {}])
